@@ -3,6 +3,8 @@ package main
 import (
 	"fmt"
 	"go/types"
+	"math/big"
+	"regexp"
 	"strings"
 
 	"golang.org/x/tools/go/ssa"
@@ -350,14 +352,110 @@ func init() {
 	reg("github.com/cosmos/cosmos-sdk/x/auth/types.NewModuleAddress", func(m *Machine, fn *ssa.Function, a []Value) Value {
 		return m.moduleAddr(m.constStr(a[0], "module name"))
 	})
+	reg("github.com/ipfs/go-cid.Decode", func(m *Machine, fn *ssa.Function, a []Value) Value {
+		ok := m.in.UF("validcid", SBool, a[0].(*Term))
+		ct := fn.Signature.Results().At(0).Type()
+		if m.branch(ok) {
+			return TupleVal{m.zero(ct), nilIface}
+		}
+		return TupleVal{m.zero(ct), m.newError(m.in.Str("invalid cid"))}
+	})
 	reg(sdkTypes+".ValidateDenom", func(m *Machine, fn *ssa.Function, a []Value) Value {
 		d := a[0].(*Term)
+		if d.IsConst() {
+			if denomRe.MatchString(d.sv) {
+				return nilIface
+			}
+			return m.newError(m.in.Str("invalid denom: " + d.sv))
+		}
 		ok := m.in.UF("validdenom", SBool, d)
 		m.addPC(m.in.Implies(ok, m.in.Ge(m.in.StrLen(d), m.in.I64(3))))
 		if m.branch(ok) {
 			return nilIface
 		}
 		return m.newError(m.in.Str("invalid denom"))
+	})
+
+	// decimals from strings: constants are parsed exactly; symbolic strings get an uninterpreted value
+	// and validity flag (realised as a real decimal string for native replay)
+	reg(sdkTypes+".NewDecFromStr", func(m *Machine, fn *ssa.Function, a []Value) Value {
+		dt := fn.Signature.Results().At(0).Type()
+		mk := func(t *Term) Value { return &StructVal{f: []Value{m.newBig(t)}} }
+		s := a[0].(*Term)
+		if s.IsConst() {
+			v, ok := parseDec18(s.sv)
+			if !ok {
+				return TupleVal{m.zeroDec(dt), m.newError(m.in.Str("failed to set decimal string"))}
+			}
+			return TupleVal{mk(m.in.Int(v)), nilIface}
+		}
+		valid := m.in.UF("validdec", SBool, s)
+		m.noteUF("validdec", s)
+		if m.branch(valid) {
+			z := m.in.UF("decof", SInt, s)
+			if b := m.eng.cfg.BigAbsBound; b != nil {
+				m.addPC(m.in.And(m.in.Le(m.in.Int(new(big.Int).Neg(b)), z), m.in.Le(z, m.in.Int(b))))
+			}
+			m.addPC(m.in.Gt(m.in.StrLen(s), m.in.I64(0)))
+			return TupleVal{mk(z), nilIface}
+		}
+		return TupleVal{m.zeroDec(dt), m.newError(m.in.Str("failed to set decimal string"))}
+	})
+	reg("("+sdkTypes+".Dec).MustFloat64", func(m *Machine, fn *ssa.Function, a []Value) Value {
+		sv := a[0].(*StructVal)
+		p := m.force(sv.f[0]).(Pointer)
+		if p.cell == nil {
+			m.goPanicf("nil-deref", "MustFloat64 on nil Dec")
+		}
+		z := m.bigGet(p)
+		return m.in.RDiv(m.in.ToReal(z), m.in.Real(new(big.Rat).SetInt(pow10big(18))))
+	})
+	reg(sdkTypes+".ParseCoinNormalized", func(m *Machine, fn *ssa.Function, a []Value) Value {
+		s := a[0].(*Term)
+		if !s.IsConst() {
+			m.unsupported("ParseCoinNormalized of a symbolic string")
+		}
+		i := 0
+		for i < len(s.sv) && s.sv[i] >= '0' && s.sv[i] <= '9' {
+			i++
+		}
+		ct := fn.Signature.Results().At(0).Type()
+		if i == 0 || i == len(s.sv) {
+			return TupleVal{m.zero(ct), m.newError(m.in.Str("invalid decimal coin expression"))}
+		}
+		amt, _ := new(big.Int).SetString(s.sv[:i], 10)
+		coin := &StructVal{f: []Value{m.in.Str(s.sv[i:]), &StructVal{f: []Value{m.newBig(m.in.Int(amt))}}}}
+		return TupleVal{coin, nilIface}
+	})
+
+	// fork-free summaries of the SDK's decimal rounding helpers (they mutate and return their argument)
+	reg(sdkTypes+".chopPrecisionAndRound", func(m *Machine, fn *ssa.Function, a []Value) Value {
+		d := m.bigGet(a[0])
+		one18 := m.in.Int(pow10big(18))
+		half := m.in.Int(new(big.Int).Div(pow10big(18), big.NewInt(2)))
+		abs := m.absT(d)
+		q, r := m.in.Div(abs, one18), m.in.Mod(abs, one18)
+		up := m.in.Or(m.in.Gt(r, half), m.in.And(m.in.Eq(r, half), m.in.Eq(m.in.Mod(q, m.in.I64(2)), m.in.I64(1))))
+		res := m.in.Ite(up, m.in.Add(q, m.in.I64(1)), q)
+		res = m.in.Ite(m.in.Lt(d, m.in.I64(0)), m.in.Neg(res), res)
+		return m.bigSet(a[0], res)
+	})
+	reg(sdkTypes+".chopPrecisionAndRoundUp", func(m *Machine, fn *ssa.Function, a []Value) Value {
+		d := m.bigGet(a[0])
+		one18 := m.in.Int(pow10big(18))
+		abs := m.absT(d)
+		q, r := m.in.Div(abs, one18), m.in.Mod(abs, one18)
+		pos := m.in.Ite(m.in.Eq(r, m.in.I64(0)), q, m.in.Add(q, m.in.I64(1)))
+		res := m.in.Ite(m.in.Lt(d, m.in.I64(0)), m.in.Neg(q), pos)
+		return m.bigSet(a[0], res)
+	})
+	reg("("+sdkTypes+".Dec).Ceil", func(m *Machine, fn *ssa.Function, a []Value) Value {
+		sv := a[0].(*StructVal)
+		z := m.bigGet(sv.f[0])
+		one18 := m.in.Int(pow10big(18))
+		q, r := m.in.TQuo(z, one18), m.in.TRem(z, one18)
+		res := m.in.Ite(m.in.Gt(r, m.in.I64(0)), m.in.Add(q, m.in.I64(1)), q)
+		return &StructVal{f: []Value{m.newBig(m.in.Mul(res, one18))}}
 	})
 
 	// params subspace
@@ -415,6 +513,51 @@ func init() {
 	})
 }
 
+var denomRe = regexp.MustCompile(`^[a-zA-Z][a-zA-Z0-9/:._-]{2,127}$`)
+
+func pow10big(n int) *big.Int { return new(big.Int).Exp(big.NewInt(10), big.NewInt(int64(n)), nil) }
+
+// parseDec18 parses a decimal string into its 18-decimals integer representation (sdk.NewDecFromStr).
+func parseDec18(s string) (*big.Int, bool) {
+	if s == "" {
+		return nil, false
+	}
+	neg := false
+	if s[0] == '-' {
+		neg = true
+		s = s[1:]
+	}
+	if s == "" {
+		return nil, false
+	}
+	parts := strings.Split(s, ".")
+	if len(parts) > 2 || parts[0] == "" {
+		return nil, false
+	}
+	frac := ""
+	if len(parts) == 2 {
+		frac = parts[1]
+		if frac == "" || len(frac) > 18 {
+			return nil, false
+		}
+	}
+	for len(frac) < 18 {
+		frac += "0"
+	}
+	v, ok := new(big.Int).SetString(parts[0]+frac, 10)
+	if !ok {
+		return nil, false
+	}
+	if neg {
+		v.Neg(v)
+	}
+	return v, true
+}
+
+func (m *Machine) zeroDec(t types.Type) Value {
+	return &StructVal{f: []Value{Pointer{}}}
+}
+
 func (e *Engine) ctxField(name string) int {
 	ct := e.pkgs[sdkTypes].Type("Context").Type()
 	st := under(ct).(*types.Struct)
@@ -439,7 +582,13 @@ func (m *Machine) fromBech32(s *Term, kind string) Value {
 		}
 	}
 	valid := m.in.UF("validbech32_"+kind, SBool, s)
-	m.addPC(m.in.Implies(valid, m.in.Gt(m.in.StrLen(s), m.in.I64(0))))
+	m.noteUF("validbech32_"+kind, s)
+	// valid addresses are 20-byte addresses with the chain's prefix (stated assumption)
+	hrp, ln := m.eng.app.prefix()+"1", 39+len(m.eng.app.prefix())
+	if kind == "val" {
+		hrp, ln = m.eng.app.prefix()+"valoper1", 46+len(m.eng.app.prefix())
+	}
+	m.addPC(m.in.Implies(valid, m.in.And(m.in.Eq(m.in.StrLen(s), m.in.I64(int64(ln))), m.in.StrPrefixOf(m.in.Str(hrp), s))))
 	// user-supplied strings never denote module accounts (no key exists for them)
 	m.addPC(m.in.Not(m.in.StrPrefixOf(m.in.Str("mod:"), s)))
 	if m.branch(valid) {
